@@ -27,7 +27,9 @@ def solve_nurikabe(height, width, problem, unknown_low=None):
     division = solver.int_array((height, width), 0, len(clues))
 
     roots = [None] + list(map(lambda x: (x[0], x[1]), clues))
-    graph.division_connected(solver, division, len(clues) + 1, roots=roots)
+    graph.division_connected(
+        solver, division, len(clues) + 1, roots=roots, allow_empty_group=True
+    )
     is_white = solver.bool_array((height, width))
     solver.ensure(is_white == (division != 0))
     solver.add_answer_key(is_white)
